@@ -188,6 +188,18 @@ chk("C13", "proof",
     "Coq proof over abstract rule state; generated reset obligations; history enumeration",
     "DESIGN.md section 4 C13")
 
+chk("C04", "proof",
+    "Proved (Coq, closed under the global context): the stack automaton wf_check accepts EXACTLY the flattenings of forests that respect the "
+    "class discipline (containers hold containers and leaf blocks, leaf blocks and inline elements hold only inline tokens, a new-list-item only "
+    "directly inside a list) and in which every end token names the position of its start token - completeness and soundness for every forest "
+    "and every stream, generically in the kinds and in the 'may appear under' relation. What is proved is that the oracle means what the property "
+    "says. That the parser emits an accepted stream for every document is NOT proved: the extracted oracle (re-evaluated in Coq on 150 streams "
+    "per run) is run over the token streams of enumerated document spaces (60-template line vocabulary to 2 lines, container/inline templates "
+    "to 3 lines, 12-character alphabet to length 4, trigger-line pairs, delimiter-run strings to 7 symbols, the repository's own test corpus).",
+    "Trusted: Coq kernel, extraction (ExtrOcamlBasic only) + driver.ml + OCaml compiler, the token abstraction harness/tokabs.py, direct parser call.",
+    "Certified oracle (Coq soundness/completeness proof) run by extraction over enumerated document spaces",
+    "DESIGN.md section 4 C04")
+
 NOT_YET = {}
 
 
